@@ -16,6 +16,20 @@ type MapField struct {
 	ValFieldType string
 }
 
+// NilValueAsEmpty tells whether the Go type of the value is a slice: a nil value is then
+// encoded as an empty value. A map entry is a key element followed by a value element,
+// so (unlike an optional field of a model) the value element cannot be left out.
+func (f *MapField) NilValueAsEmpty() bool {
+	return strings.HasPrefix(f.ValFieldType, "[]") ||
+		f.ValFieldType == "enc.Name" || f.ValFieldType == "enc.Wire" || f.ValFieldType == "enc.Buffer"
+}
+
+// NilValueOmitsEntry tells whether the Go type of the value is a pointer: nil stands for
+// no value at all, and such an entry is left out together with its key.
+func (f *MapField) NilValueOmitsEntry() bool {
+	return strings.HasPrefix(f.ValFieldType, "*")
+}
+
 func (f *MapField) GenEncoderStruct() (string, error) {
 	g := strErrBuf{}
 	g.printlnf("%s_valencoder map[%s]*struct{", f.name, f.KeyFieldType)
@@ -72,6 +86,18 @@ func (f *MapField) encodingGeneral(funcName string) (string, error) {
 	templ := template.Must(template.New("MapEncodingGeneral").Parse(fmt.Sprintf(`
 		if value.{{.Name}} != nil {
 				for map_k, map_v := range value.{{.Name}} {
+				{{- if .NilValueAsEmpty}}
+				if map_v == nil {
+					// a key is always followed by its value element
+					map_v = {{.ValFieldType}}{}
+				}
+				{{- end}}
+				{{- if .NilValueOmitsEntry}}
+				if map_v == nil {
+					// a key is always followed by its value element: no value, no entry
+					continue
+				}
+				{{- end}}
 				pseudoEncoder := encoder.{{.Name}}_valencoder[map_k]
 				pseudoValue := struct {
 					{{.Name}}_k {{.KeyFieldType}}
